@@ -92,6 +92,7 @@ type Worker struct {
 	funcsExecuted    map[*ssa.Function]int64
 	inInit           bool
 	fastOne, fastTwo int64
+	pools map[*Value][]Value
 	solverBase       struct {
 		sat, unsat, unknown int
 		t                   time.Duration
@@ -654,11 +655,14 @@ func (w *Worker) visit(fr *frame, instr ssa.Instruction) continuation {
 			w.runtimePanic(fr, "assignment to entry in nil map")
 		}
 		k := fr.get(ins.Key)
-		h, ok := hashKey(k)
-		if !ok {
-			unsupported("map update with symbolic key")
+		val := copyVal(fr.get(ins.Value))
+		if e := w.mapFind(fr, m, k); e != nil {
+			e.v = val
+		} else if h, ok := hashKey(k); ok {
+			m.m[h] = &mapEntry{k: k, v: val}
+		} else {
+			m.sym = append(m.sym, &mapEntry{k: k, v: val})
 		}
-		m.m[h] = &mapEntry{k: k, v: copyVal(fr.get(ins.Value))}
 	case *ssa.TypeAssert:
 		fr.set(ins, w.typeAssert(fr, ins, fr.get(ins.X).(Iface)))
 	case *ssa.MakeClosure:
@@ -1609,22 +1613,7 @@ func (w *Worker) lookup(fr *frame, ins *ssa.Lookup) Value {
 	vt := ins.X.Type().Underlying().(*types.Map).Elem()
 	var found *mapEntry
 	if m != nil {
-		if h, ok := hashKey(k); ok {
-			found = m.m[h]
-		} else {
-			// symbolic key: one decision per candidate (deterministic order)
-			for _, h := range m.sortedKeys() {
-				e := m.m[h]
-				eq := w.equalsDyn(fr, k, e.k)
-				if b, ok := eq.(bool); ok && !b {
-					continue
-				}
-				if w.condition(eq) {
-					found = e
-					break
-				}
-			}
-		}
+		found = w.mapFind(fr, m, k)
 	}
 	var v Value
 	if found != nil {
@@ -1638,6 +1627,38 @@ func (w *Worker) lookup(fr *frame, ins *ssa.Lookup) Value {
 	return v
 }
 
+// mapFind looks k up: a concrete key is matched exactly against the concrete
+// entries; every comparison involving a symbolic key is a solver-decided branch
+// (deterministic candidate order).
+func (w *Worker) mapFind(fr *frame, m *Map, k Value) *mapEntry {
+	if h, ok := hashKey(k); ok {
+		if e := m.m[h]; e != nil {
+			return e
+		}
+	} else {
+		for _, h := range m.sortedKeys() {
+			e := m.m[h]
+			eq := w.equalsDyn(fr, k, e.k)
+			if b, ok := eq.(bool); ok && !b {
+				continue
+			}
+			if w.condition(eq) {
+				return e
+			}
+		}
+	}
+	for _, e := range m.sym {
+		eq := w.equalsDyn(fr, k, e.k)
+		if b, ok := eq.(bool); ok && !b {
+			continue
+		}
+		if w.condition(eq) {
+			return e
+		}
+	}
+	return nil
+}
+
 // ---- range ----
 
 type iter struct {
@@ -1645,6 +1666,7 @@ type iter struct {
 	pos  int
 	m    *Map
 	keys []string
+	ents []*mapEntry
 }
 
 func (w *Worker) rangeIter(x Value, t types.Type) Value {
@@ -1657,7 +1679,10 @@ func (w *Worker) rangeIter(x Value, t types.Type) Value {
 	case *Map:
 		it := &iter{m: xv}
 		if xv != nil {
-			it.keys = xv.sortedKeys()
+			for _, k := range xv.sortedKeys() {
+				it.ents = append(it.ents, xv.m[k])
+			}
+			it.ents = append(it.ents, xv.sym...)
 		}
 		return it
 	}
@@ -1685,14 +1710,11 @@ func (w *Worker) next(fr *frame, it *iter) Value {
 		it.pos += int(size)
 		return Tuple{true, int64(i), r}
 	}
-	if it.m == nil || it.pos >= len(it.keys) {
+	if it.m == nil || it.pos >= len(it.ents) {
 		return Tuple{false, nil, nil}
 	}
-	e := it.m.m[it.keys[it.pos]]
+	e := it.ents[it.pos]
 	it.pos++
-	if e == nil {
-		return w.next(fr, it)
-	}
 	return Tuple{true, e.k, copyVal(e.v)}
 }
 
@@ -1763,7 +1785,7 @@ func (w *Worker) callBuiltin(caller *frame, pos token.Pos, fn *ssa.Builtin, args
 			if x == nil {
 				return int64(0)
 			}
-			return int64(len(x.m))
+			return int64(x.size())
 		}
 	case "cap":
 		switch x := args[0].(type) {
@@ -1779,11 +1801,20 @@ func (w *Worker) callBuiltin(caller *frame, pos token.Pos, fn *ssa.Builtin, args
 		if m == nil {
 			return nil
 		}
-		h, ok := hashKey(args[1])
-		if !ok {
-			unsupported("delete with symbolic key")
+		e := w.mapFind(caller, m, args[1])
+		if e == nil {
+			return nil
 		}
-		delete(m.m, h)
+		if h, ok := hashKey(e.k); ok && m.m[h] == e {
+			delete(m.m, h)
+			return nil
+		}
+		for j, s := range m.sym {
+			if s == e {
+				m.sym = append(m.sym[:j:j], m.sym[j+1:]...)
+				break
+			}
+		}
 		return nil
 	case "print", "println":
 		return nil
